@@ -52,9 +52,16 @@ def Base.remove (b : Base) (k : Key) : Base := b.filter (fun e => e.1 ≠ k)
 def Base.set (b : Base) (k : Key) (e : Entry) : Base := b.remove k ++ [(k, e)]
 def Base.keys (b : Base) : List Key := b.map (·.1)
 
-/-- `apply_baseline_comparison` -/
+/-- a kind of violation for which `update_baseline_from_results` writes an entry -/
+def Kind.recordable : Kind → Bool
+  | .otherStructure => false
+  | _ => true
+
+/-- `apply_baseline_comparison`: a failed result of a recordable kind whose path has an entry
+    becomes grandfathered (fix f5486fc: results of the other kinds are left alone) -/
 def apply (rs : List Res) (b : Base) : List Res :=
-  rs.map (fun r => if r.status = .failed && b.contains r.path then { r with status := .grandfathered } else r)
+  rs.map (fun r => if r.status = .failed && r.kind.recordable && b.contains r.path
+    then { r with status := .grandfathered } else r)
 
 inductive UpdateMode where
   | all | content | structure | new
@@ -190,11 +197,19 @@ theorem run_done (disk : Option Base) (rs : List Res) (ev : List Key) (f : Flags
 
 /-! ### fail-fast -/
 
-/-- a result that sets the fail-fast flag: a failure the baseline does not grandfather -/
+/-- a result that sets the fail-fast flag: a failure the baseline does not grandfather.
+    (The guard in `runner.rs` looks at file results, which are line-count results: for them
+    `recordable` is true and the condition is `failed ∧ path not recorded`, `triggers_content`.) -/
 def triggers (loaded : Option Base) (r : Res) : Bool :=
   r.status = .failed && !(match loaded with
-    | some b => b.contains r.path
+    | some b => r.kind.recordable && b.contains r.path
     | none => false)
+
+theorem triggers_content (loaded : Option Base) (r : Res) (h : r.kind = .content) :
+    triggers loaded r = (r.status = .failed && !(match loaded with
+      | some b => b.contains r.path
+      | none => false)) := by
+  unfold triggers; cases loaded <;> simp [h, Kind.recordable]
 
 /-- A set of processed files (given by a keep-mask over the file results) is *admissible* for a
     fail-fast run if files are only skipped after some processed file triggered the flag. -/
